@@ -241,6 +241,17 @@ def call(self, e, st):
         if nm in ("all", "any") and len(e.args) == 1 and isinstance(e.args[0], ast.GeneratorExp):
             yield self.quant_over(e.args[0], st, None, nm == "all")
             return
+        if nm == "tuple" and len(e.args) == 1 and isinstance(e.args[0], ast.GeneratorExp) and not self.spec:
+            g = e.args[0]
+            elt = g.elt
+            if isinstance(elt, ast.Dict) or (isinstance(elt, ast.IfExp) and isinstance(elt.body, ast.Dict)
+                                              and isinstance(elt.orelse, ast.Dict)):
+                want = getattr(self, "expect_type", None)
+                if isinstance(want, Opt):
+                    want = want.elt
+                if isinstance(want, Seq) and isinstance(want.elt, Dict) and len(g.generators) == 1 and not g.generators[0].ifs:
+                    yield self.bulk_dicts(g, st, want), st
+                    return
         if nm == "cast" and len(e.args) == 2:
             yield from self.ev(e.args[1], st)
             return
@@ -783,6 +794,59 @@ def call_builtin(self, name, args, kwargs, st, node):
         yield self.unknown_call(args, kwargs, st, f"builtin {name}"), st
         return
     raise Untranslatable(f"builtin {name}")
+
+
+def bulk_dicts(self, g, st, want):
+    """tuple({k: v, ...} [if c else {...}] for x in src): len(src) freshly allocated dictionaries (bulk allocation)."""
+    dt = want.elt
+    view, bind, ifs, s1 = self.comp_view(g, st)
+    st.pc[:] = s1.pc
+    n = view.length
+    st.assume(n >= 0)
+    base = st.next_ref
+    st.next_ref = st.next_ref + n
+    i = fresh("bi", z3.IntSort())
+    s_i = bind(i, st)
+    elt = g.elt
+    if isinstance(elt, ast.IfExp):
+        cv, _ = self.ev1(elt.test, s_i)
+        cond = self.truth(cv, s_i)
+        branches = [(cond, elt.body), (z3.Not(cond), elt.orelse)]
+    else:
+        branches = [(z3.BoolVal(True), elt)]
+    r = fresh("r", z3.IntSort())
+    k = fresh("k", dt.k.sort())
+    dom0 = self.heap.get(st, ("dom", dt.name(), dt.k))
+    val0 = self.heap.get(st, ("val", dt.name(), dt.k, dt.v))
+    card0 = self.heap.get(st, ("card", dt.name()))
+    dom1, val1, card1 = fresh("bdom", dom0.sort()), fresh("bval", val0.sort()), fresh("bcard", card0.sort())
+    outside = z3.Or(r < base, r >= base + n)
+    st.assume(z3.ForAll([r], z3.Implies(outside, z3.And(z3.Select(dom1, r) == z3.Select(dom0, r),
+                                                        z3.Select(val1, r) == z3.Select(val0, r),
+                                                        z3.Select(card1, r) == z3.Select(card0, r)))))
+    in_dom = z3.BoolVal(False)
+    for c, d in branches:
+        keys = []
+        for kn, vn in zip(d.keys, d.values):
+            kv, _ = self.ev1(kn, s_i)
+            vv, _ = self.ev1(vn, s_i)
+            kz = self.coerce(kv, dt.k, st).z
+            vz = self.coerce(vv, dt.v, st).z
+            keys.append(kz)
+            body = z3.Implies(c, z3.Select(z3.Select(val1, r), kz) == vz)
+            st.assume(z3.ForAll([r], z3.Implies(z3.And(base <= r, r < base + n), z3.substitute(body, (i, r - base)))))
+        in_dom = z3.Or(in_dom, z3.And(c, z3.Or(*[k == x for x in keys]) if keys else z3.BoolVal(False)))
+    body = z3.Select(z3.Select(dom1, r), k) == in_dom
+    st.assume(z3.ForAll([r, k], z3.Implies(z3.And(base <= r, r < base + n), z3.substitute(body, (i, r - base)))))
+    self.heap.set(st, ("dom", dt.name(), dt.k), dom1)
+    self.heap.set(st, ("val", dt.name(), dt.k, dt.v), val1)
+    self.heap.set(st, ("card", dt.name()), card1)
+    et = dt
+    rs = fresh("seq", z3.SeqSort(z3.IntSort()))
+    j = fresh("j", z3.IntSort())
+    st.assume(z3.Length(rs) == n)
+    st.assume(z3.ForAll([j], z3.Implies(z3.And(0 <= j, j < n), rs[j] == base + j)))
+    return Val(Seq(et), rs)
 
 
 def chain_views(self, vs):
